@@ -111,6 +111,7 @@ type Interp struct {
 
 	globals map[*ssa.Global]*Cell
 	inited  map[*ssa.Package]bool
+	mapCOW  map[*MapVal]*MapVal // this path's private copies of frozen (package-init) maps it wrote to
 
 	prefix []Decision // decisions to follow
 	trace  []Decision // decisions taken so far (prefix + new)
